@@ -619,6 +619,28 @@ class Interp:
                 except _Continue:
                     pass
             raise Unsupported("loop bound exceeded at line %s" % s.get("line"))
+        if k == "ForStmt" and getattr(self, "concrete_loops", False) and len(s.get("inner", [])) == 5:
+            init, condvar, cond, inc, body = s["inner"]
+            if condvar and condvar.get("kind"):
+                raise Unsupported("for loop with a condition variable at line %s" % s.get("line"))
+            if init and init.get("kind"):
+                self.exec(init)
+            for _ in range(256):
+                if cond and cond.get("kind"):
+                    c = self.ev(cond)
+                    if isinstance(c, SymVal):
+                        raise Unsupported("loop with a symbolic condition at line %s" % s.get("line"))
+                    if not self._truth(c, s):
+                        return
+                try:
+                    self.exec(body)
+                except _Break:
+                    return
+                except _Continue:
+                    pass
+                if inc and inc.get("kind"):
+                    self.ev(inc)
+            raise Unsupported("loop bound exceeded at line %s" % s.get("line"))
         if k in ("WhileStmt", "ForStmt", "DoStmt", "CXXForRangeStmt"):
             raise Unsupported("loop at line %s" % s.get("line"))
         # expression statement
